@@ -135,7 +135,10 @@ def run(tier, seed):
             reqs.append('m2c00 %s %d %d %s' % (dtok, sub, ver, tb(data)))
         rep = lean_batch(reqs)[len(reqs) - len(cases):]
         for (sub, ver, data), r in zip(cases, rep):
-            real = jsonio.canon(json.loads(m2.parseUDToJson(sub, ver, memoryview(data)), object_pairs_hook=jsonio.pairs_hook))
+            try:
+                real = jsonio.canon(json.loads(m2.parseUDToJson(sub, ver, memoryview(data)), object_pairs_hook=jsonio.pairs_hook))
+            except Exception as e:  # noqa  -- "always returns a JSON object": whatever else happens is an outcome
+                real = '<%s: %s>' % (type(e).__name__, str(e)[:100])
             ck.case(key=('m2c00', sub, ver, data), sample={'m2c00': [sub, ver, len(data)]})
             ck.count('m2c00 subtype %s version %s' % (sub if sub in (72, 73, 84) else 'other', ver if ver in (1, 2) else 'other'))
             rp = {'op': 'm2c00', 'subtype': sub, 'version': ver, 'data_hex': data.hex()}
